@@ -17,7 +17,8 @@ import (
 
 // C17 — clock-relative behaviour is right at every minute of the day.
 
-var c17Days = []ref.Date{{Y: 2024, M: 5, D: 15}, {Y: 2023, M: 12, D: 31}, {Y: 2024, M: 4, D: 30}, {Y: 2024, M: 2, D: 28}, {Y: 2024, M: 2, D: 29}, {Y: 2024, M: 3, D: 1}, {Y: 2024, M: 3, D: 31}, {Y: 2024, M: 10, D: 27}}
+var c17Days = []ref.Date{{Y: 2024, M: 5, D: 15}, {Y: 2023, M: 12, D: 31}, {Y: 2024, M: 4, D: 30}, {Y: 2024, M: 2, D: 28}, {Y: 2024, M: 2, D: 29}, {Y: 2024, M: 3, D: 1}, {Y: 2024, M: 3, D: 31}, {Y: 2024, M: 10, D: 27},
+	{Y: 2024, M: 1, D: 1}, {Y: 2025, M: 1, D: 1}, {Y: 2025, M: 1, D: 2}} // (the last three: the first days of a leap year and of the year after one)
 var c17Roundings = []struct {
 	flag, cfg int
 }{{0, 0}, {5, 0}, {10, 0}, {12, 0}, {15, 0}, {20, 0}, {30, 0}, {60, 0}, {0, 5}, {0, 10}, {0, 12}, {0, 15}, {0, 20}, {0, 30}, {0, 60}}
@@ -29,7 +30,7 @@ func init() {
 	core.Register(&core.Prop{
 		ID:    "C17",
 		Level: "exploration",
-		Rule: "grid: ALL 1440 minutes of the day (seconds 0 / 59 alternating) x days {ordinary, Dec 31, month end, Feb 28 of a leap year, Feb 29, Mar 1, and the two days on which European/US/Australian zones change to and from daylight-saving time; the virtual clock carries such zones} x rounding {none, 5, 10, 12, 15, 20, 30, 60 via --round and via default_rounding} x date selection {default, --today, --yesterday, --tomorrow, explicit --date today / other, an explicit --date together with a contradicting --yesterday/--tomorrow/--today} " +
+		Rule: "grid: ALL 1440 minutes of the day (seconds 0 / 59 alternating) x days {ordinary, Dec 31, month end, Feb 28 of a leap year, Feb 29, Mar 1, Jan 1 of a leap year, Jan 1 and Jan 2 of the year after a leap year, and the two days on which European/US/Australian zones change to and from daylight-saving time; the virtual clock carries such zones} x rounding {none, 5, 10, 12, 15, 20, 30, 60 via --round and via default_rounding} x date selection {default, --today, --yesterday, --tomorrow, explicit --date today / other, an explicit --date together with a contradicting --yesterday/--tomorrow/--today} " +
 			"x record layouts {open range today, only yesterday, both, none, today's record without open range} x 12h/24h files x commands {start, stop, switch} plus `total --now` and `json --now`. thorough = the full grid (exhaustive); quick = all minutes x all roundings x all selections on the ordinary day and Dec 31 with PRNG layouts, every 6th minute on the other days. " +
 			"oracle: reference arithmetic - r = minute rounded to the nearest multiple (ties up), the time written into a record dated D must denote the instant r relative to today, i.e. offset r + 1440*(today-D), in the file's clock convention; it is representable iff -1440 <= offset <= 2879, otherwise the command must fail with an error message and leave the file byte-identical; " +
 			"stop uses today's record if one exists, else yesterday's iff date and time were automatic; end >= start or error; --now adds now-start for today's and now+1440-start for yesterday's open ranges and refuses every other one. any panic is a violation. " +
